@@ -841,4 +841,56 @@ theorem floor_div_nat (T c : Nat) (hc : 0 < c) :
     have := Int.ediv_mul_le (T : Int) (Int.ne_of_gt hci)
     omega
 
+/-! ### rescaling -/
+
+/-- multiply every entry of a row / of a matrix by `k` -/
+def smul (k : Rat) (v : Vec) : Vec := v.map (k * ·)
+def msmul (k : Rat) (A : Mat) : Mat := A.map (smul k)
+
+theorem everyNth_map {α β : Type} (f : α → β) (c k : Nat) (xs : List α) :
+    everyNth c k (xs.map f) = (everyNth c k xs).map f := by
+  rw [everyNth_eq_select, everyNth_eq_select, List.length_map, select_map]
+
+theorem vadd_smul (k : Rat) (a b : Vec) : vadd (smul k a) (smul k b) = smul k (vadd a b) := by
+  induction a generalizing b with
+  | nil => simp [vadd, smul]
+  | cons x xs ih =>
+    cases b with
+    | nil => simp [vadd, smul]
+    | cons y ys =>
+      have := ih ys
+      simp only [vadd, smul, List.map_cons, List.zipWith_cons_cons] at this ⊢
+      rw [this, Rat.mul_add]
+
+theorem vsub_smul (k : Rat) (a b : Vec) : vsub (smul k a) (smul k b) = smul k (vsub a b) := by
+  induction a generalizing b with
+  | nil => simp [vsub, smul]
+  | cons x xs ih =>
+    cases b with
+    | nil => simp [vsub, smul]
+    | cons y ys =>
+      have := ih ys
+      simp only [vsub, smul, List.map_cons, List.zipWith_cons_cons] at this ⊢
+      rw [this]
+      congr 1
+      rw [Rat.sub_eq_add_neg, Rat.sub_eq_add_neg, Rat.mul_add, Rat.mul_neg]
+
+theorem colSum_smul (k : Rat) (n : Nat) (rows : Mat) :
+    colSum n (msmul k rows) = smul k (colSum n rows) := by
+  induction rows with
+  | nil => simp [msmul, colSum, smul, zeros]
+  | cons r rs ih =>
+    simp only [msmul, List.map_cons, colSum] at ih ⊢
+    rw [ih, vadd_smul]
+
+theorem meanRow_smul (k : Rat) (c n : Nat) (obs : Mat) (p : Nat) :
+    meanRow c n (msmul k obs) p = smul k (meanRow c n obs p) := by
+  unfold meanRow
+  have e : everyNth c p (msmul k obs) = msmul k (everyNth c p obs) := everyNth_map _ _ _ _
+  rw [e, colSum_smul]
+  simp only [msmul, smul, List.length_map, List.map_map]
+  apply List.map_congr_left
+  intro x _
+  simp only [Function.comp, Rat.div_def, Rat.mul_assoc]
+
 end Pyunicorn.Window
